@@ -29,9 +29,13 @@ var ConfigKinds = []string{"stats", "stats2+interceptors", "chain+stats", "servi
 
 type passiveSH struct{ n int }
 
+// ConfigUses counts how often the neutral features were actually exercised (self-check of the wrapper).
+var ConfigUses = map[string]int{}
+
 type passiveKey struct{ n int }
 
 func (p *passiveSH) TagRPC(ctx context.Context, _ *stats.RPCTagInfo) context.Context {
+	ConfigUses["stats"]++
 	return context.WithValue(ctx, passiveKey{p.n}, true)
 }
 func (p *passiveSH) HandleRPC(context.Context, stats.RPCStats) {}
@@ -41,9 +45,11 @@ func (p *passiveSH) TagConn(ctx context.Context, _ *stats.ConnTagInfo) context.C
 func (p *passiveSH) HandleConn(context.Context, stats.ConnStats) {}
 
 func passUnaryServer(ctx context.Context, req any, info *grpc.UnaryServerInfo, h grpc.UnaryHandler) (any, error) {
+	ConfigUses["interceptor"]++
 	return h(ctx, req)
 }
 func passStreamServer(srv any, ss grpc.ServerStream, info *grpc.StreamServerInfo, h grpc.StreamHandler) error {
+	ConfigUses["interceptor"]++
 	return h(srv, ss)
 }
 func passUnaryClient(ctx context.Context, method string, req, reply any, cc *grpc.ClientConn, inv grpc.UnaryInvoker, opts ...grpc.CallOption) error {
